@@ -78,6 +78,8 @@ def run_unit(task):
                     tail = r.name.rsplit('#', 1)[-1]
                     if r.kind in ('engine', 'exhaustive', 'callsite'):
                         return True
+                    if r.kind == 'raises' and '*raises*' in keep:
+                        return True      # this property states the exception set of every clause
                     if r.kind == 'cover':
                         return tail.split(':', 1)[-1] in keep
                     return tail in keep or tail == 'modifies-nothing'
@@ -210,6 +212,12 @@ def _main(a, seed, t_start):
         done.update(new)
         closure_added += new
         pending = [('contract', n, opts) for n in new]
+        if any(n.endswith('.validate') or (n.startswith('pamqp.commands.') and '__init__' in n) for n in done) \
+                and 'C13.name-character-class' not in done:
+            # validators rest on assumption A6 (the compiled name patterns are one anchored character-class star:
+            # exactly the specified characters, and no backtracking): its ground check belongs to every cone that uses them
+            done.add('C13.name-character-class')
+            pending.append(('ground', 'C13.name-character-class', opts))
         pending.sort(key=lambda t: next((i for i, h in enumerate(heavy) if h in t[1]), len(heavy)))
 
     all_results = []
@@ -341,6 +349,27 @@ def _main(a, seed, t_start):
 
     # ---- bounded stand-in (thorough: every contract of the cone; quick: only behind undecided ones)
     undecided_units = sorted({r['unit'] for r in undecided if r['unit_kind'] == 'contract'})
+    # an undecided contract that cannot be run natively on its own (no concrete samples for its parameters) is exercised
+    # through the contracts that apply it: their bounded runs call the real callee
+    callers = {}
+    for o in outs:
+        for callee in (o.get('stats') or {}).get('callees', []):
+            callers.setdefault(callee, set()).add(o['name'])
+    def runnable(c):        # (a native run shows return values and exceptions, not the attribute writes of an effect clause)
+        return c.bounded and not any(k.effects is not None for k in c.cases)
+    frontier = [u for u in undecided_units if reg.get(u) is not None and not runnable(reg.get(u))]
+    seen_up = set(frontier)
+    while frontier:
+        u = frontier.pop()
+        for caller in sorted(callers.get(u, ())):
+            if caller in seen_up or reg.get(caller) is None:
+                continue
+            seen_up.add(caller)
+            if runnable(reg.get(caller)):
+                if caller not in undecided_units:
+                    undecided_units.append(caller)
+            else:
+                frontier.append(caller)
     targets = ([n for (k, n) in spec.units() if k == 'contract'] + closure_added) if thorough else undecided_units
     targets = list(targets) + [n for (k, n) in spec.units() if k == 'contract' and reg.get(n).bounded_only and n not in targets]
     for name in targets:
